@@ -61,6 +61,17 @@ def run(res, args):
         else:
             doc = bytes(rng.randrange(256) for _ in range(rng.randint(0, 60))); force = rng.choice(langs); dist['random'] += 1
         lines.append(f'W2X {force} {rng.choice([0, 0, 0, 106, 3, 4, 1000, 999])} {opts()} {doc.hex() or "-"}')
+    # small-scope exhaustive stream: every body of at most k octets over the octets that steer the parser,
+    # behind a WML header (attributes, extensions) and an SI header with a string table, random options
+    import itertools
+    alpha = [0x00, 0x01, 0x02, 0x03, 0x04, 0x05, 0x40, 0x43, 0x44, 0x45, 0x80, 0x83, 0x84, 0x85, 0xC3, 0xC4, 0xC5, 0x61, 0x7F, 0xFF]
+    kmax = 3 if quick else 4
+    nsmall = 0
+    for hd in (bytes([3, 4, 0x6a, 0]), bytes([3, 5, 0x6a, 4]) + b'ab\x00c'):
+        for k in range(0, kmax + 1):
+            for body in itertools.product(alpha, repeat=k):
+                lines.append(f'W2X 0 0 {opts()} {(hd + bytes(body)).hex()}'); nsmall += 1
+    dist['small-scope-exhaustive'] = nsmall
     # nesting ladder inside the sanitizer run (moderate depths, wide indentation)
     for depth, gen, ind in [(50, 1, 2), (50, 1, 255), (129, 1, 2), (131, 1, 2), (131, 1, 255), (131, 0, 0), (131, 2, 0), (300, 1, 3), (1000, 1, 1), (1000, 0, 0)] + \
             ([] if quick else [(260, 1, 255), (3000, 1, 1), (3000, 2, 0), (6000, 0, 0)]):
